@@ -324,6 +324,9 @@ func C09(ctx *core.Ctx, r *core.Report) {
 	// 4. Choose implementations iterate deterministically
 	c09ChooseSiblings(ctx, r)
 	impliedCasePerNode(ctx, r)
+	c09TeeReachesBothSides(ctx, r)
+	c09MapDeleteBeforeDescend(ctx, r)
+	c18HandlerFollowsContainer(ctx, r)
 	c09PresenceLooksThroughNestedChoice(ctx, r)
 	c09ClearClears(ctx, r)
 	memoDebug(ctx, r)
